@@ -310,10 +310,15 @@ void XMLWriter::labels(int x, int y, const edge_t& edge)
 {
     string str;
     if (edge.select.get_size() > 0) {
-        str = edge.select[0].get_name() + " : ";
-        if (edge.select[0].get_type().size() > 0 && edge.select[0].get_type()[0].size() > 0) {
-            str += edge.select[0].get_type()[0].get_label(0);
-        }  // else ? should not happen
+        // every binder with its type in source syntax (the builder adds the const prefix itself)
+        for (uint32_t i = 0; i < edge.select.get_size(); ++i) {
+            type_t type = edge.select[i].get_type();
+            if (type.get_kind() == CONSTANT)
+                type = type[0];
+            if (i > 0)
+                str += ", ";
+            str += edge.select[i].get_name() + " : " + type.declaration();
+        }
         label("select", str, x, y - 32);
     }
     if (!edge.guard.empty()) {
